@@ -13,8 +13,8 @@ def run(tier):
     progs += en.curated(names=["planortho"], cxx="clang++", std="c++14", san="recover", asserts=False)
     classes = en.cls("STATUS", "PLANRESULT") | (en.cls("REQ", "PLANEDIT") if thorough else 0)
     args = ["--tier", tier, "--dev", "2", "--batch", "1", "--classes", str(classes), "--mode", "plans",
-            "--deadline", str(1500 if thorough else 110)]
-    res = en.run_all(chk, "C06", progs, args, timeout=(2400 if thorough else 420))
+            "--deadline", str(en.TD if thorough else 110)]
+    res = en.run_all(chk, "C06", progs, args, timeout=(en.TD + 900 if thorough else 420))
     en.aggregate(chk, res, "C06")
     chk.coverage["explanation"] = (
         "BFS to a fixpoint over the plan-free quiescent states of plan-oriented programs (nested and orthogonal plan "
